@@ -116,11 +116,18 @@ Become(S) == has' = S.has /\ col' = S.col /\ colset' = S.colset /\ reg' = S.reg 
 Insert(ch, vn) ==
   /\ Tick /\ Become(InsertOp(Cur, ch, Views[vn].rows))
   /\ UNCHANGED <<groups, recs, ext, nin, trains>>
+\* When the channel disappears from the module its own columns and (unless another channel writes it) its current disappear;
+\* recordings and clamps of those names go with them (they used to stay and made integrate raise KeyError: defect F20, repaired).
 DeleteChannel(ch, vn) ==
+  LET S == DeleteOp(Cur, ch, Views[vn].rows)
+      goneKeys == (colset \ S.colset) \cup (IF CurName[ch] \in Range(S.curs) THEN {} ELSE {CurName[ch]})
+  IN
   /\ Tick
   /\ \E r \in Views[vn].rows : ch \in has[r]                      \* otherwise ValueError
-  /\ Become(DeleteOp(Cur, ch, Views[vn].rows))
-  /\ UNCHANGED <<groups, recs, ext, nin, trains>>
+  /\ Become(S)
+  /\ recs' = SelectSeq(recs, LAMBDA p : p[2] \notin goneKeys)
+  /\ ext' = [k \in ExtKeys |-> IF k \in goneKeys THEN <<>> ELSE ext[k]]
+  /\ UNCHANGED <<groups, nin, trains>>
 \* C19: a deletion undoes its insertion (on rows that carried no mechanism before) and leaves
 \* every other mechanism as it was
 DeleteUndoesInsert ==
